@@ -254,23 +254,30 @@ def run(c):
     maxsw = 4 if c.tier == 'quick' else 6
     cap = 400 if c.tier == 'quick' else 3000
     jobs = []   # (prog, sched, mclass, steps, mtrace)
+    prio = []   # schedules that are never sampled away: small programs and the programs with repeated sendids
+    per_prog = 40 if c.tier == 'quick' else 400
     for ent in corpus['programs']:
         sw = min(maxsw, ent.get('max_switches', maxsw))
-        line = vm(vmodel, ['enum %s %s %d %d' % (variant, ent['prog'], sw, cap)])[0]
+        atomic = ' atomic' if ent.get('atomic_cancel') else ''
+        line = vm(vmodel, ['enum %s %s %d %d%s' % (variant, ent['prog'], sw, 100000 if atomic else cap, atomic)])[0]
+        mine = []
         for item in line.split(';'):
             if not item:
                 continue
             sched, mclass, steps, mtrace = item.split('|')
-            jobs.append((ent['prog'], sched, mclass, steps, mtrace))
+            mine.append((ent['prog'], sched, mclass, steps, mtrace))
+        if atomic or len(mine) <= 12:
+            prio += mine if len(mine) <= per_prog else c.rng.sample(mine, per_prog)
+        else:
+            jobs += mine
     # corpus schedules (witnesses of the _refuted theorems and earlier disagreements) first
     wj = []
     for w in corpus['schedules']:
         o = kv(vm(vmodel, ['simc %s %s %s' % (variant, w['prog'], w['sched'])])[0])
         wj.append((w['prog'], o['sched'], o['class'], o['steps'], o['trace']))
-    jobs = wj + jobs
-    if c.tier == 'quick' and len(jobs) > 600:
-        keep = jobs[:len(wj)] + c.rng.sample(jobs[len(wj):], 600 - len(wj))
-        jobs = keep
+    if c.tier == 'quick' and len(jobs) > 500:
+        jobs = c.rng.sample(jobs, 500)
+    jobs = wj + prio + jobs
 
     def work(j):
         return replay(vdriver, j[0], j[3])
@@ -302,7 +309,7 @@ def run(c):
         if inwin:
             hist['window'] += 1
             nontriv.add((prog, sched))
-        agree = (oc == mc)
+        agree = (oc == mc) and r.get('dev', '-') == '-'     # dev: the code left the path of the model's steps
         if agree and mc == 'done':
             agree = counts(r['obs']) == counts(mtrace) and routes(r['obs']) == routes(mtrace)
         if not agree:
@@ -327,12 +334,37 @@ def run(c):
             if not agree:
                 bad = (bad[0] + '+model-disagrees', bad[1] + '; Delay.v (variant of the current code) predicts ' + mc + ' on this schedule')
             ofails.append({'class': bad[0], 'what': bad[1], 'prog': prog, 'sched': sched, 'steps': steps,
-                           'observed': {k: r.get(k) for k in ('res', 'fault', 'obs')}, 'model_predicts': mclass})
+                           'observed': {k: r.get(k) for k in ('res', 'fault', 'dev', 'obs')}, 'model_predicts': mclass})
 
     # ---- 3. real-time runs
     nrt = 24 if c.tier == 'quick' else 200
     rtjobs = []
     rng = c.rng
+    # programs with sendids shared by several delayed sends: a cancel that returns well before the due times must
+    # leave no event of that sendid (oracle cancel_ok_b), the others fire; the cancel is placed at least 15 ms away
+    # from every due time (the timer granularity must not decide whether it was in time)
+    nshared = 12 if c.tier == 'quick' else 80
+    for k in range(nshared):
+        n = rng.randint(3, 5)
+        sids = [7] * rng.randint(2, 3) + [8, 9]
+        rng.shuffle(sids)
+        n = min(n, len(sids))
+        sids = sids[:n]
+        if sids.count(7) < 2:
+            sids[0] = sids[1] = 7
+        tcancel = rng.choice([0, 0, 30, 60, 90])
+        ops, dues = [], []
+        for u in range(1, n + 1):
+            ms = rng.choice([d for d in range(45, 200, 5) if abs(d - tcancel) >= 15 and all(abs(d - x) >= 8 for x in dues)])
+            dues.append(ms)
+            text = rng.choice(['%dms' % ms, '%d' % ms, ('%.3f' % (ms / 1000.0)) + 's'])
+            ops.append('S:%d:%d:%d:%s:%d' % (u, sids[u - 1], rng.choice([0, 0, 1]), hexs(text.encode()), ms))
+        if tcancel:
+            ops.append('W:%d' % tcancel)
+        ops.append('C:7')
+        if rng.random() < 0.5:
+            ops.append('S:%d:7:0:%s:%d' % (n + 1, hexs(b'20ms'), 20))     # the sendid can be used again
+        rtjobs.append(','.join(ops))
     for k in range(nrt):
         n = rng.randint(1, 4)
         ops = []
@@ -367,7 +399,8 @@ def run(c):
         if r['res'] != 'ok' or r['fault'] != 'none' or ov.get('adm') != '1':
             which = [k for k in ('once', 'notearly', 'order', 'cancel') if ov.get(k) == '0']
             ofails.append({'class': 'realtime:' + (r['res'] if r['res'] != 'ok' else '+'.join(which)), 'what': 'free-running run rejected',
-                           'prog': p, 'sched': '-', 'steps': '-', 'observed': r, 'model_predicts': 'admissible history'})
+                           'prog': p, 'sched': '-', 'steps': '-', 'observed': r, 'model_predicts': 'admissible history',
+                           'replay_cmd': "echo 'delay_rt %d %s' | %s" % (TOL_US, p, vdriver)})
         # smallest (delivery - enqueue - delay) seen
         sends = {}
         for o in r.get('obs', '-').split(','):
@@ -402,12 +435,12 @@ def run(c):
     c.cov['evaluations'] = cod['cases'] + len(jobs) + len(rtjobs)
     c.cov['distinct_nontrivial'] = len(nontriv) + cod['nontrivial']
     c.cov['rule'] = ('schedule replay: %d forced schedules (corpus witnesses + all realisable complete schedules of the model with <= %d '
-                     'context switches over %d programs of <= 3 sends/cancels; variant %s determined from the witnesses), non-trivial = '
+                     'context switches over %d programs of <= 5 sends/cancels, among them programs with 2-3 delayed sends under one sendid (cancel enumerated as an uninterrupted run, at every logical time); variant %s determined from the witnesses), non-trivial = '
                      'an interpreter step (cancel or send) falls inside a timer-callback window (%d); codec: %d delay strings '
                      '(corpus %d, exhaustive over {0,1,9,.,m,s,space,e} up to length %d: %d, random %d), non-trivial = string in the '
-                     'CSS2 time grammar (%d); %d free-running real-time runs') % (
+                     'CSS2 time grammar (%d); %d free-running real-time runs (%d of them with shared sendids and a cancel)') % (
         len(jobs), maxsw, len(corpus['programs']), variant, len(nontriv), cod['cases'], cod['corpus'],
-        4 if c.tier == 'quick' else 5, cod['exhaustive'], cod['random'], cod['nontrivial'], len(rtjobs))
+        4 if c.tier == 'quick' else 5, cod['exhaustive'], cod['random'], cod['nontrivial'], len(rtjobs), nshared)
     c.cov['input_distribution'] = {'replay_model_classes': hist, 'codec': cod['hist'],
                                    'realtime_min_margin_us': rt_early_margin}
     c.cov['samples'] = [{'prog': j[0], 'sched': j[1], 'model': j[2], 'observed': observed_class(r), 'obs': r.get('obs')}
@@ -431,7 +464,7 @@ def run(c):
         seen.add(cls)
         c.violation({'kind': 'oracle', 'class': cls, 'delay_text': s.decode('latin-1'), 'delay_hex': hexs(s),
                      'expected_ms_by_delay_spec': spec, 'observed_delayMs': got,
-                     'replay_cmd': "echo 'delay_parse %s' | /verif/.build/vdriver-hooks/vdriver" % hexs(s)})
+                     'replay_cmd': "echo 'delay_parse %s' | %s" % (hexs(s), vdriver)})
     for f0 in sorted(ofails, key=lambda x: (len(x['steps']), x['steps'])):
         cls = f0['class']
         f = c.match_known({'class': cls})
@@ -444,7 +477,7 @@ def run(c):
         c.violation({'kind': 'oracle', 'class': cls, 'what': f0['what'], 'program': f0['prog'], 'schedule': f0['sched'],
                      'forcing_steps': f0['steps'], 'expected': 'delivered at most once and not early, or cancelled; never a crash, deadlock or use of freed memory',
                      'observed': f0['observed'], 'model_predicts': f0['model_predicts'],
-                     'replay_cmd': "echo 'delay_replay %d %s %s %d' | /verif/.build/vdriver-hooks/vdriver" % (TICK_MS, f0['prog'], f0['steps'], WATCHDOG_MS)})
+                     'replay_cmd': f0.get('replay_cmd') or "echo 'delay_replay %d %s %s %d' | %s" % (TICK_MS, f0['prog'], f0['steps'], WATCHDOG_MS, vdriver)})
     if not ofails and not cod['oracle_failures']:
         alld = disagreements + [{'delay': s.decode('latin-1'), 'model': m, 'impl': i} for s, m, i in cod['disagreements']]
         if alld:
